@@ -168,34 +168,37 @@ def run(R):
         cn = tonic.body('channel::service::tls::TlsConnector::connect::{closure#0}')
         ap = cn.calls(name='alpn_protocol')
         R.check(len(ap) == 1, 'C15.R4', 'alpn-read', site(cn), 'alpn_protocol() sites: %d' % len(ap))
-        # rows: Ok return requires (alpn == Some(h2)) or assume_http2
+        # Ok is reachable only through the edge "alpn == Some(h2)" or the edge "assume_http2 == true"
         okret = [bb for bb, i, p, a, ops in mirlib.aggregates(cn, 'result::Result', 'Ok') if p['l'] == 0]
-        errret = [bb for bb in writers_of(cn, 0) if any(w[0] == 'call' and w[3] in ('into', 'from_residual') or (w[0] == 'variant' and w[2] == 'Err') for w in block_writes(cn, bb, 0))]
-        rows = decision_rows(cn, ap[0][0] if ap else 0, set(okret) | {bb for bb, i, p, a, ops in mirlib.aggregates(cn, 'result::Result', 'Err') if p['l'] == 0} | {bb for bb, t in cn.calls(name='into') if t['dest']['l'] == 0},
-                             relevant=lambda s: ('alpn_protocol' in s and 'eq' in s or s.startswith('std::cmp::PartialEq::eq') or 'assume_http2' in s))
-        bad_ok = []
-        n_ok = 0
-        for cons, bb in rows:
-            if bb not in okret:
-                continue
-            n_ok += 1
-            alpn_true = None
-            assume_true = None
-            for s, op, v in cons:
-                truth = True if (op == 'notin' and 0 in v) or (op == '==' and v != 0) or (op == '!=' and v == 0) else (False if (op == '==' and v == 0) else None)
-                if 'assume_http2' in s:
-                    assume_true = truth
-                elif 'alpn_protocol' in s or 'eq(' in s:
-                    alpn_true = truth
-            if not (alpn_true is True or assume_true is True):
-                bad_ok.append((cons, bb))
-        R.check(n_ok >= 1 and not bad_ok, 'C15.R4', 'ok-requires-h2-or-opt-out', site(cn), 'Ok rows: %d; rows reaching Ok without (alpn == Some(h2) || assume_http2): %r' % (n_ok, [c for c, b in bad_ok][:2]))
-        eqs = [(bb, t) for bb, t in cn.calls(name='eq') if term_contains(cn.origin(t['args'][0]), lambda x: is_call(x, name='alpn_protocol'))]
+        cmp_calls = [(bb, t) for bb, t in cn.calls(name='eq') + cn.calls(name='ne') if term_contains(cn.origin(t['args'][0]), lambda x: is_call(x, name='alpn_protocol')) or term_contains(cn.origin(t['args'][1]), lambda x: is_call(x, name='alpn_protocol'))]
         okc = False
-        for bb, t in eqs:
-            o = strip_refs(cn.origin(t['args'][1]))
-            okc = o[0] == 'agg' and o[1].get('variant') == 'Some' and mentions_constdef(o, 'ALPN_H2')
-        R.check(okc, 'C15.R4', 'compares-with-Some(h2)', site(cn), 'alpn_protocol() == Some(ALPN_H2) — None (no ALPN negotiated) is not accepted: %r' % okc)
+        pass_edges = set()
+        for bb, t in cmp_calls:
+            sides = [strip_refs(cn.origin(a)) for a in t['args']]
+            other = [x for x in sides if not term_contains(x, lambda y: is_call(y, name='alpn_protocol'))]
+            okc = bool(other) and other[0][0] == 'agg' and other[0][1].get('variant') == 'Some' and mentions_constdef(other[0], 'ALPN_H2')
+            sw = mirlib.follow_to_switch(cn, t['t'])
+            for tgt, vals in cn.switch_edges(sw).items():
+                truth = (vals == ['else'] or (0 not in vals and 'else' not in vals))
+                matches = truth if t['name'] == 'eq' else not truth
+                if matches:
+                    pass_edges.add((sw, tgt))
+        R.check(len(cmp_calls) == 1 and okc, 'C15.R4', 'compares-with-Some(h2)', site(cn), 'alpn_protocol() is compared with Some(ALPN_H2) — None (no ALPN negotiated) does not match: %r' % okc)
+        for s_ in [bb for bb in cn.live_blocks() if cn.term(bb)['k'] == 'switch' and field_names(cn.origin(cn.term(bb)['on']))[-1:] == ['assume_http2']]:
+            for tgt, vals in cn.switch_edges(s_).items():
+                if vals == ['else'] or (0 not in vals and 'else' not in vals):
+                    pass_edges.add((s_, tgt))
+        for s_ in [bb for bb in cn.live_blocks() if cn.term(bb)['k'] == 'switch']:
+            o_ = cn.origin(cn.term(s_)['on'])
+            if o_[0] == 'un' and o_[1] == 'Not' and field_names(o_[2])[-1:] == ['assume_http2']:
+                for tgt, vals in cn.switch_edges(s_).items():
+                    if vals == [0]:
+                        pass_edges.add((s_, tgt))
+        start = ap[0][0] if ap else 0
+        reach = cn.reachable(start, removed_edges=pass_edges)
+        leaked = [bb for bb in okret if bb in reach]
+        R.check(bool(okret) and bool(pass_edges) and not leaked, 'C15.R4', 'ok-requires-h2-or-opt-out', site(cn, leaked[0]) if leaked else site(cn),
+                'with the edges "alpn == Some(h2)" and "assume_http2" removed the Ok return is unreachable: %r (pass edges %d)' % (not leaked, len(pass_edges)))
         h2e = [x for x in mirlib.aggregates(cn) if x[3].get('variant') == 'H2NotNegotiated']
         R.check(len(h2e) == 1, 'C15.R4', 'error-kind', site(cn), 'TlsError::H2NotNegotiated sites: %d' % len(h2e))
 
